@@ -940,7 +940,7 @@ func (x *wfExec) buildFuncLeaf(id int, l *LeafSpec, n int, w time.Duration) flyt
 	} else {
 		opts = append(opts, flyt.WithPostFunc(postR))
 	}
-	return flyt.NewNode(opts...)
+	return newNode(opts)
 }
 
 // runaway: the executor's own termination device fired (every post answers "halt" once the fuel
